@@ -34,6 +34,36 @@ struct Box : ISpline
     using Vec = typename S::VectorType;
     using BC = BoundaryConditions<DIM>;
     std::unique_ptr<S> sp;
+    // caller-provided output arguments that live as long as the object: "reuse" hands them over as the last call left them (possibly
+    // sized for another segment count), "dirty" first gives them the right shape and fills them with garbage
+    typename S::Gradients pg;
+    Mat pgc;
+    Eigen::VectorXd pgt;
+    static constexpr double GARBAGE = 7.25;
+    void dirtyOutputs(const std::string &via)
+    {
+        if (via != "dirty")
+            return;
+        const int n = sp->getNumSegments();
+        pg.inner_points = Mat::Constant(std::max(0, n - 1), DIM, GARBAGE);
+        pg.times = Eigen::VectorXd::Constant(n, -GARBAGE);
+        pg.start.p.setConstant(GARBAGE);
+        pg.start.v.setConstant(GARBAGE);
+        pg.end.p.setConstant(-GARBAGE);
+        pg.end.v.setConstant(-GARBAGE);
+        if constexpr (ORDER >= 5)
+        {
+            pg.start.a.setConstant(GARBAGE);
+            pg.end.a.setConstant(GARBAGE);
+        }
+        if constexpr (ORDER >= 7)
+        {
+            pg.start.j.setConstant(-GARBAGE);
+            pg.end.j.setConstant(GARBAGE);
+        }
+        pgc = Mat::Constant((ORDER + 1) * n, DIM, GARBAGE);
+        pgt = Eigen::VectorXd::Constant(n, GARBAGE);
+    }
 
     int order() const override { return ORDER; }
     int dim() const override { return DIM; }
@@ -200,7 +230,14 @@ struct Box : ISpline
             o.d("val", s.getEnergy());
         else if (kind == "egrad")
         {
-            if (cmd.value("via", "struct") == std::string("ref"))
+            const std::string via = cmd.value("via", "struct");
+            if (via == "reuse" || via == "dirty")
+            {
+                dirtyOutputs(via);
+                s.getEnergyGrad(pg);
+                logGrads(o, pg);
+            }
+            else if (via == "ref")
             {
                 typename S::Gradients g;
                 s.getEnergyGrad(g);
@@ -221,7 +258,15 @@ struct Box : ISpline
         }
         else if (kind == "epartial")
         {
-            if (cmd.value("via", "ret") == std::string("ref"))
+            const std::string via = cmd.value("via", "ret");
+            if (via == "reuse" || via == "dirty")
+            {
+                dirtyOutputs(via);
+                s.getEnergyPartialGradByCoeffs(pgc);
+                s.getEnergyPartialGradByTimes(pgt);
+                o.m("gdC", pgc).v("gdT", pgt);
+            }
+            else if (via == "ref")
             {
                 Mat gc;
                 Eigen::VectorXd gt;
@@ -237,7 +282,14 @@ struct Box : ISpline
             const Mat gc = m(cmd["gdC"]);
             const std::vector<double> gtv = hx::vec(cmd["gdT"]);
             Eigen::VectorXd gt = Eigen::Map<const Eigen::VectorXd>(gtv.data(), gtv.size());
-            if (cmd.value("via", "ret") == std::string("ref"))
+            const std::string via = cmd.value("via", "ret");
+            if (via == "reuse" || via == "dirty")
+            {
+                dirtyOutputs(via);
+                s.propagateGrad(gc, gt, pg);
+                logGrads(o, pg);
+            }
+            else if (via == "ref")
             {
                 typename S::Gradients g;
                 s.propagateGrad(gc, gt, g);
